@@ -514,6 +514,20 @@ class RecordingSubscriber(BaseSubscriber):
         self.w.log.add('cb.on_done.ret', label=self.label, sub=self.name)
 
 
+_partial_classes = {}
+
+
+def partial_subscriber(only):
+    """A subscriber class that is NOT a BaseSubscriber and offers only the callbacks named in ``only`` (e.g. ['on_done'])."""
+    key = tuple(sorted(only))
+    if key not in _partial_classes:
+        ns = {'__init__': RecordingSubscriber.__init__, '_reenter': RecordingSubscriber._reenter}
+        for name in key:
+            ns[name] = getattr(RecordingSubscriber, name)
+        _partial_classes[key] = type('PartialSubscriber_' + '_'.join(k[3:] for k in key), (object,), ns)
+    return _partial_classes[key]
+
+
 # -------------------------------------------------------------- executors
 _stage_names = ['request', 'submission', 'io']
 
